@@ -21,7 +21,8 @@ ENTRY = dict(
         "no protocol / connection / device / sub-device task left": "theorem (tasks = 0) + correspondence (asyncio.all_tasks() after close)",
         "mixers and thermostats with overlapping indexes": "theorem (subdevices_all_shut) + correspondence",
         "devices shut down when already disconnected": "theorem (devices_shut_when_disconnected) + correspondence",
-        "states in the middle of a device set-up request round": "correspondence only (they queue further requests while close() waits)",
+        "states in the middle of a device set-up request round": "correspondence only (they queue further requests while close() waits): close() at every point of the three request rounds, with a controller fast enough that close() returns while the round is still running",
+        "states after a loss that caught the frame consumers mid-frame": "correspondence only, statement-level oracle (gated histories): close() must return within the bound when the state drains, nothing left; the F1 tag requires the F1 match (write queue non-empty without producer progress, or read queue non-empty with no consumer while disconnected)",
     },
     assumptions=COMMON_ASSUME + [
         "close() is called at quiescent points of a history (no library task about to run) and after connect() has returned",
